@@ -63,6 +63,61 @@ def _oracle(b, b2, generated):
     return None
 
 
+PATTERN_CHAINS = ["vYYYY.BUILD[-TAG]", "vMAJOR.MINOR.PATCH[-TAG.BUILD]", "vMAJOR.MINOR[.PATCH.BUILD]", "MAJOR.MINOR.PATCH+BUILD", "YYYY.MM[.BUILD[-TAG]]",
+                  "BUILD", "vBUILD.TAG", "MAJOR[.MINOR[.BUILD]]", "vYYYY0M.BUILD[-TAGNUM]", "MAJOR.BUILD[.INC0]"]
+
+
+def pattern_chain(rng, pat, steps):
+    """BUILD as the user sees it inside WHOLE versions: successive `incr` calls under a pattern in which BUILD shares optional groups with
+    parts that can become zero, with random flags and dates; after every accepted bump the rendered version must show a BUILD that is
+    greater than the previous one (a BUILD that is not rendered is lost: the next run starts from the default again)"""
+    import re, datetime as dt
+    import refimpl
+    tree = refimpl.tokenize(pat)
+    rx = re.compile(refimpl.ref_regex_named(tree)) if hasattr(refimpl, "ref_regex_named") else None
+    d = dt.date(2020 + rng.randint(0, 5), rng.randint(1, 12), rng.randint(1, 28))
+    st = refimpl.gen_state(rng, tree, d, __import__("gen"))
+    st["bid"] = rng.choice(["1000", "0998", "1998", "0001", "8998", str(rng.randint(1000, 9000))])
+    cur = refimpl.render(tree, st)
+    prev_bid = None
+    for i in range(steps):
+        flags = dict(NOFLAGS, pin_date=False)
+        for k in ("major", "minor", "patch"):
+            if k.upper() in pat and rng.random() < 0.3:
+                flags[k] = True
+        if "TAG" in pat and rng.random() < 0.4:
+            flags["tag"] = rng.choice(["final", "final", "alpha", "beta", "rc"])
+        if rng.random() < 0.2:
+            flags["pin_increments"] = True
+        if rng.random() < 0.3:
+            d = d + dt.timedelta(days=rng.choice([1, 31, 366]))
+        p0 = impl.parse_version(cur, pat, [d.year, d.month, d.day])
+        if "ok" not in p0:
+            return {"pattern": pat, "version": cur}, "the version %r announced by a bump is not readable under %r" % (cur, pat)
+        bid0 = p0["ok"]["bid"]
+        if prev_bid is not None and bid0 != prev_bid:
+            return {"pattern": pat, "version": cur, "bumped_to": prev_bid}, "BUILD was bumped to %r but the rendered version %r reads back as BUILD %r" % (prev_bid, cur, bid0)
+        r = impl.incr(cur, pat, flags, [d.year, d.month, d.day], [d.year, d.month, d.day])
+        new = r.get("ok")
+        if not new:
+            if r.get("err") == "OverflowError" and set(bid0) <= set("9"):
+                return {"pattern": pat, "end": cur}, None
+            continue
+        p1 = impl.parse_version(new, pat, [d.year, d.month, d.day])
+        if "ok" not in p1:
+            return {"pattern": pat, "from": cur, "to": new}, "the bumped version %r is not readable under %r" % (new, pat)
+        # what BUILD did the bump compute?  (the model-independent expectation: the lexid successor of the padded previous id)
+        want = impl.bump_bid(bid0).get("ok")
+        bid1 = p1["ok"]["bid"]
+        v = _oracle(bid0, bid1, i > 0)
+        if v is None and want is not None and bid1 != want:
+            v = "BUILD %r was bumped to %r but the rendered version %r shows %r" % (bid0, want, new, bid1)
+        if v:
+            return {"pattern": pat, "from": cur, "to": new, "flags": {k: x for k, x in flags.items() if x}}, v
+        prev_bid, cur = bid1, new
+    return {"pattern": pat, "end": cur}, None
+
+
 def run(chk, driver, tier):
     rng = chk.rng
     ids = list(_ids(rng, tier))
@@ -97,6 +152,11 @@ def run(chk, driver, tier):
         else:
             chk.oracle_case({"chain_start": start, "steps": chainlen, "end": b}, None)
     chk.count("chains", nchains)
+    for ci in range(60 if tier == "thorough" else 12):
+        pat = PATTERN_CHAINS[ci % len(PATTERN_CHAINS)]
+        case, v = pattern_chain(rng, pat, 400 if tier == "thorough" else 60)
+        chk.count("pattern_chain:" + pat)
+        chk.oracle_case(case, v)
     # known findings: replay the recorded witnesses
     lines = []
     for f in load_known_findings("C17"):
